@@ -1,6 +1,7 @@
 import WtVerif.Driver.Ops
 import WtVerif.Driver.Ops2
 import WtVerif.Driver.Ops3
+import WtVerif.Driver.Ops4
 
 namespace Ops
 
@@ -10,6 +11,9 @@ def handle (op : String) (a obs : List String) : Option Verdict :=
   | none =>
     match handle2 op a obs with
     | some v => some v
-    | none => handle3 op a obs
+    | none =>
+      match handle3 op a obs with
+      | some v => some v
+      | none => handle4 op a obs
 
 end Ops
